@@ -22,5 +22,6 @@ pub(crate) mod proofs {
         assert!(matches!(r, keen_retry::RetryResult::Ok { .. }), "accepted");
         assert!(sm::wakes(0) == w0 + 1, "empty -> non-empty: stream 0 woken");
         assert!(ch.pending_items_count() == 1, "one pending");
+        kani::cover!(true, "end of harness reachable (vacuity guard)");
     }
 }
